@@ -37,13 +37,20 @@ SeqStep(To, e) ==
 ConcStep(To, e) ==
     IF e.ev = "call"
     THEN V(TRUE, [To EXCEPT !.call[e.c] = [op |-> e.op, a |-> e.a, st |-> "open", exp |-> DNone,
-                                           cand |-> {DDispatch(To.D, e).ret}]], "")
+                                           cand |-> {DDispatch(To.D, e).ret}, overlap |-> FALSE]], "")
     ELSE IF e.ev \in {"commit", "awrite"}
     THEN LET cl == To.call[e.c] IN
          IF cl.op = "none" THEN V(FALSE, To, "harness: commit outside a call")
          ELSE IF Multi(cl.op)
-         THEN \* composed operations commit step by step; contents are re-synchronised (not atomic by design)
-              V(TRUE, [To EXCEPT !.D.items = e.items, !.call[e.c].st = "multi"], "")
+         THEN \* composed operations commit step by step; contents are re-synchronised (not atomic by design);
+              \* lookups in flight may observe the intermediate contents
+              LET Dn == [To.D EXCEPT !.items = e.items] IN
+              V(TRUE, [To EXCEPT !.D = Dn,
+                                 !.call = [c \in DOMAIN To.call |->
+                                    IF c = e.c THEN [To.call[c] EXCEPT !.st = "multi"]
+                                    ELSE IF To.call[c].op # "none" /\ To.call[c].st = "open"
+                                    THEN [To.call[c] EXCEPT !.cand = @ \cup {DDispatch(Dn, To.call[c]).ret}, !.overlap = TRUE]
+                                    ELSE To.call[c]]], "")
          ELSE LET r == DDispatch(To.D, cl)
                   Tn == [To EXCEPT !.D = r.D, !.call[e.c].st = "committed", !.call[e.c].exp = r.ret]
               IN IF e.items = To.D.items /\ r.D.items # e.items /\ cl.st = "open"
@@ -53,7 +60,7 @@ ConcStep(To, e) ==
                                    " are not that operation applied to the contents committed just before: " \o ToJson(r.D.items))
                  ELSE V(TRUE, [Tn EXCEPT !.call = [c \in DOMAIN Tn.call |->
                             IF c # e.c /\ Tn.call[c].op # "none" /\ Tn.call[c].st = "open"
-                            THEN [Tn.call[c] EXCEPT !.cand = @ \cup {DDispatch(r.D, Tn.call[c]).ret}]
+                            THEN [Tn.call[c] EXCEPT !.cand = @ \cup {DDispatch(r.D, Tn.call[c]).ret}, !.overlap = TRUE]
                             ELSE Tn.call[c]]], "")
     ELSE IF e.ev = "ret"
     THEN LET cl == To.call[e.c]
@@ -64,6 +71,9 @@ ConcStep(To, e) ==
             THEN IF e.ret = cl.exp THEN V(TRUE, Tq, "")
                  ELSE V(FALSE, To, "C11 " \o cl.op \o " returned " \o ToJson(e.ret) \o " expected " \o ToJson(cl.exp))
             ELSE IF e.ret \in cl.cand THEN V(TRUE, Tq, "")
+            \* positional and whole-sequence reads walk the keys in several statements: while another client changes
+            \* the deque they are not atomic (C11 promises exactly-once delivery of pops, judged at the commits)
+            ELSE IF cl.op \in {"getitem", "iter", "count", "compare"} /\ cl.overlap THEN V(TRUE, Tq, "")
             ELSE V(FALSE, To, "C11 " \o cl.op \o " returned " \o ToJson(e.ret) \o
                               " which no contents committed during the call explain: " \o ToJson(cl.cand))
     ELSE IF e.ev = "final"
